@@ -80,6 +80,50 @@ func runC03(p *core.Prog, r *core.Report) {
 		path := core.CGPath(cg, from, func(f *ssa.Function) bool { return f == to })
 		r.Check(path != nil, "C03.R4", "handleStepUndo→ApplyDeltasReverse", "handleStepUndo reaches baseStore.ApplyDeltasReverse through the registered undo handler",
 			"no call-graph path", core.CGPathString(path))
+		// every recorded output of the undone block, and every registered handler, is visited: the loops over the block's
+		// module outputs and over the undo handlers, anywhere on that chain, have no exit other than their bound
+		isOutputsOrHandlers := func(v ssa.Value) bool {
+			sl, ok := v.Type().Underlying().(*types.Slice)
+			if !ok {
+				return false
+			}
+			switch e := sl.Elem().(type) {
+			case *types.Pointer:
+				if n, ok := e.Elem().(*types.Named); ok && n.Obj().Name() == "ModuleOutput" {
+					return true
+				}
+			case *types.Named:
+				if _, ok := e.Underlying().(*types.Signature); ok && e.Obj().Name() == "UndoHandler" {
+					return true
+				}
+			case *types.Signature:
+				return true
+			}
+			return false
+		}
+		chain := map[*ssa.Function]bool{p.Func(pkgPipe, "ForkHandler.handleUndo"): true}
+		for _, f := range path {
+			chain[f] = true
+		}
+		nLoops := 0
+		badLoop := ""
+		for f := range chain {
+			if f == to || f.Pkg == nil || !strings.HasPrefix(f.Pkg.Pkg.Path(), core.ModPath+"/"+pkgPipe) {
+				continue
+			}
+			for _, l := range core.LoopIndexing(f, isOutputsOrHandlers) {
+				nLoops++
+				for _, e := range l.EarlyExits {
+					if !l.ExitIsPanic(e) {
+						badLoop = core.FuncName(f) + " leaves the loop early at " + p.Pos(e.From.Instrs[len(e.From.Instrs)-1].Pos())
+					}
+				}
+				for _, rt := range l.ReturnsInside() {
+					badLoop = core.FuncName(f) + " returns inside the loop at " + p.Pos(rt.Pos())
+				}
+			}
+		}
+		r.Check(nLoops >= 2 && badLoop == "", "C03.R4", "undo-chain/every-output", "on an undo every registered handler runs and every module output recorded for the block is handed to the store undo: the loops over handlers and outputs have no exit other than their bound (an output of a non-store module is skipped, not a reason to stop)", fmt.Sprintf("%d loops on the chain; %s", nLoops, badLoop), p.Pos(from.Pos()))
 		from2 := p.Func(pkgPipe, "Pipeline.applyExecutionResult")
 		addSite := core.FindInstrs(from2, core.IsCallTo(p.FuncObj(pkgPipe, "ForkHandler.addReversibleOutput")))
 		ok := len(addSite) > 0
